@@ -45,6 +45,7 @@ def generate(rng, tier):
                  "tilt": [rng.uniform(-3, 3), rng.uniform(-3, 3)], "power": rng.uniform(-3, 3),
                  "piston": rng.uniform(-5, 5), "noise": rng.choice([0.0, 0.01, 0.3, 1.0])},
         "latcaled": rng.random() < 0.8,
+        "layout": rng.choice(["c", "c", "c", "c", "fortran", "transposed"]),
         # an interferogram without lateral calibration (dx = 0, the constructor's default) that
         # stays that way until a step calibrates it
         "uncal": rng.random() < 0.12,
@@ -120,6 +121,17 @@ def generate(rng, tier):
         else:
             op = {"op": k}
         ops.append(op)
+    if rng.random() < 0.2:
+        # a directed tail: filtering needs fully valid data, which random histories rarely have, so
+        # read some coordinates, crop to the valid box, fill what is left, then filter
+        tail = [{"op": "read", "what": rng.sample(["x", "y", "r", "t"], rng.choice([1, 2, 4]))}] if rng.random() < 0.7 else []
+        tail += [{"op": "crop"}, {"op": "fill", "v": rng.choice([0, 0.0, 1.5])}]
+        if rng.random() < 0.3:
+            tail.append({"op": "read", "what": [rng.choice(["r", "t"])]})
+        typ = rng.choice(["lp", "hp", "bp", "br"])
+        fc = sorted([rng.uniform(0.05, 0.5), rng.uniform(0.5, 0.9)]) if typ in ("bp", "br") else rng.uniform(0.05, 0.9)
+        tail.append({"op": "filter", "typ": typ, "fc": fc})
+        ops = ops[:max(0, len(ops) - 2)] + tail
     return {"prop": PROP, "tier": tier, "config": cfg, "init": init, "ops": ops}
 
 
@@ -218,7 +230,12 @@ def execute(plan):
     z = build_data(np, init)
     dx0 = init["dx"]
     uncal = bool(init.get("uncal"))
-    ifg = Interferogram(z.copy(), dx=dx0 if (init["latcaled"] and not uncal) else 0.0, wavelength=0.6328)
+    z_user = z.copy()
+    if init.get("layout") == "fortran":
+        z_user = np.asfortranarray(z_user)            # the same samples in column-major memory
+    elif init.get("layout") == "transposed":
+        z_user = np.ascontiguousarray(z_user.T).T     # ... or as a transposed view
+    ifg = Interferogram(z_user, dx=dx0 if (init["latcaled"] and not uncal) else 0.0, wavelength=0.6328)
     if not init["latcaled"] and not uncal:
         # an un-calibrated interferogram is brought to a defined spacing first
         ifg.latcal(dx0)
@@ -822,6 +839,10 @@ def simplifiers(plan):
     if init["dx"] != 1.0:
         p = copy.deepcopy(plan)
         p["init"]["dx"] = 1.0
+        yield p
+    if init.get("layout", "c") != "c":
+        p = copy.deepcopy(plan)
+        p["init"]["layout"] = "c"
         yield p
     d = init["data"]
     for key, val in (("noise", 0.0), ("scale", 1.0), ("power", 0.0), ("piston", 0.0)):
